@@ -518,3 +518,93 @@ def validation_suite(stats, tier=None, label="malformed:validate"):
         if k < 4:
             stats.sample(dict(suite=label, **desc, outcome=real))
     return stats
+
+
+# ----------------------------------------------------------------------------------------
+# implicit components: residual of apply_nonlinear and the partials of linearize (SolveMatrix, FEM)
+# ----------------------------------------------------------------------------------------
+def _implicit_partials(comp, of, wrts, sizes):
+    """dense d(residual of)/d(wrt) from the sub-Jacobians the component filled in linearize (declared rows/cols honoured)"""
+    blocks = []
+    absname = lambda n: comp.pathname + "." + n
+    for w in wrts:
+        info = comp._subjacs_info.get((absname(of), absname(w)))
+        D = np.zeros((sizes[of], sizes[w]))
+        if info is not None:
+            val = info["val"]
+            if info.get("rows") is not None:
+                np.add.at(D, (np.asarray(info["rows"]), np.asarray(info["cols"])), np.asarray(val, dtype=float).ravel())
+            elif val is not None:
+                v = val.toarray() if hasattr(val, "toarray") else np.asarray(val, dtype=float)
+                D += v.reshape(D.shape)
+        blocks.append(D)
+    return np.hstack(blocks)
+
+
+def implicit_cases(rng, name, nx, ny, sym):
+    from collections import OrderedDict
+    from .specs import _vlm_surfs, _surf
+    if name == "SolveMatrix":
+        from openaerostruct.aerodynamics.solve_matrix import SolveMatrix
+        ss = _vlm_surfs(rng, nx, ny, sym, ns=int(rng.integers(1, 3)))
+        N = sum((s["mesh"].shape[0] - 1) * (s["mesh"].shape[1] - 1) for s in ss)
+        A = rng.normal(size=(N, N)) + 3.0 * np.eye(N)
+        return dict(factory=lambda: SolveMatrix(surfaces=ss), state="circulations", op="SolveResidual", ints=[N],
+                    inputs=OrderedDict(mtx=A, rhs=rng.normal(size=N) * 10), state_val=rng.normal(size=N) * 5)
+    if name == "FEM":
+        from openaerostruct.structures.fem import FEM
+        s = _surf(rng, nx, ny, sym)
+        ne = ny - 1
+        kl = rng.normal(size=(ne, 12, 12)) * 1e5
+        kl = kl + np.transpose(kl, (0, 2, 1)) + 1e6 * np.eye(12)[None]
+        return dict(factory=lambda: FEM(surface=s), state="disp_aug", op="FEMResidual", ints=[ny, int(sym)],
+                    inputs=OrderedDict(local_stiff_transformed=kl, forces=rng.normal(size=6 * ny + 6) * 1e3),
+                    state_val=rng.normal(size=6 * ny + 6) * 1e-2)
+    raise KeyError(name)
+
+
+def implicit_suite(stats, tier=None, names=("SolveMatrix", "FEM"), label="implicit"):
+    """residual R(inputs, state) at a state that is *not* the solution, and dR/d(inputs, state) as filled by linearize,
+    against the model residual and its dual-number derivative"""
+    tier = tier or core.TIER
+    for name in names:
+        for (nx, ny) in gen.sizes(tier):
+            for sym in (True, False):
+                rng = core.rng_for("implicit", name, nx, ny, sym)
+                keys = ["implicit", name, nx, ny, sym]
+                try:
+                    c = implicit_cases(rng, name, nx, ny, sym)
+                    prob = comp_problem(c["factory"](), c["inputs"])
+                    comp = prob.model.c
+                    st = c["state"]
+                    with quiet():
+                        prob.set_val(st, c["state_val"])
+                        prob.model.run_apply_nonlinear()
+                        res = np.array(comp._residuals[st], dtype=float).ravel()
+                        prob.model.run_linearize()
+                    wrts = list(c["inputs"]) + [st]
+                    sizes = {k: np.asarray(v).size for k, v in c["inputs"].items()}
+                    sizes[st] = res.size
+                    rJ = _implicit_partials(comp, st, wrts, sizes)
+                    floats = np.concatenate([flat_cat(c["inputs"], list(c["inputs"])), np.asarray(c["state_val"], dtype=float).ravel()])
+                    mval, mJ = core.model_jacobian(c["op"], c["ints"], floats, list(range(floats.size)))
+                    dis = []
+                    ok, msg = close_vec(res, mval, rtol=1e-9)
+                    if not ok:
+                        dis.append(dict(kind="value", component=name, size=(nx, ny, sym), detail="residual: " + msg))
+                    ok, msg = close_jac(rJ, mJ, rtol=1e-7, fvals=res, xvals=floats)
+                    if not ok:
+                        dis.append(dict(kind="jacobian", component=name, size=(nx, ny, sym), detail="linearize: " + msg))
+                    h = case_hash(name, c["ints"], floats); nontrivial = bool(np.any(res != 0))
+                except DriverError as e:
+                    if "timed out" in str(e) or "not built" in str(e):
+                        raise
+                    dis = [dict(kind="driver-error", component=name, size=(nx, ny, sym), detail=str(e))]; h = case_hash(name, nx, ny, sym); nontrivial = False
+                except Exception as e:
+                    dis = [dict(kind="real-code-exception", component=name, size=(nx, ny, sym), detail="%s: %s" % (type(e).__name__, str(e)[:300]))]
+                    h = case_hash(name, nx, ny, sym); nontrivial = False
+                stats.count("%s:%s" % (label, name), h, nontrivial, ("size=%dx%d" % (nx, ny), "symmetry=%s" % sym))
+                for d in dis:
+                    d["seed_keys"] = keys
+                    stats.disagreements.append(d)
+    return stats
